@@ -11,6 +11,8 @@ mod cmp;
 mod c01;
 mod c02;
 mod c08;
+mod c13;
+mod c19;
 
 /// lexpr is built with its default feature `fast-float-parsing` in this crate
 pub const FAST_FLOAT: bool = true;
@@ -34,6 +36,10 @@ fn main() {
         "c02-replay" => c02::replay_case(&cfg),
         "c08" => c08::run(&cfg),
         "c08-replay" => c08::replay_case(&cfg),
+        "c19" => c19::run(&cfg),
+        "c19-replay" => c19::replay_case(&cfg),
+        "c13" => c13::run(&cfg),
+        "c13-replay" => c13::replay_case(&cfg),
         "c01" => c01::run(&cfg),
         "c01-replay" => c01::replay_case(&cfg),
         x => {
